@@ -703,6 +703,10 @@ func judgeLoad(c *core.Ctx, t loadCase) {
 	if runErr != nil {
 		code = 1
 	}
+	if ee, isExit := runErr.(*exec.ExitError); isExit && ee.ExitCode() == 124 {
+		c.Incomplete("several-files family: the binary did not finish within 60 s (machine overloaded?)") // never an oracle
+		return
+	}
 	first := strings.SplitN(se.String(), "\n", 2)[0]
 	c.Outcome("load:" + t.Name)
 	class := ""
